@@ -52,6 +52,7 @@ ODeviations == {
   "v3.fileserver_param_without_schema",      \* v3 file-server path parameter has neither schema nor content
   "v3.allow_empty_value_not_query",          \* allowEmptyValue is written for header and cookie parameters
   "yaml.leading_newline_dropped",            \* a description starting with a newline loses it in the YAML rendering
+  "schema.required_with_default_not_required",   \* 3.0: a header / cookie parameter that is Required AND has a Default is documented `required: false`
   "decode.required_cookie_drops_param_errors" }   \* the decoder assigns the result of r.Cookie() of a required cookie to the error it accumulates:
                                              \* what query and header decoding found (missing required parameter, invalid value) is forgotten
 
@@ -100,7 +101,9 @@ FullPath(d, s, p) == d.apiPath \o s.path \o p
 DocSeg(x) == IF x.k = "wild" THEN Var(x.s) ELSE x                   \* `{*w}` is documented as `{w}`
 DocPath(p) == [i \in DOMAIN p |-> DocSeg(p[i])]
 PathParams(p) == {P(p[i].s, "path", TRUE) : i \in {j \in DOMAIN p : p[j].k # "lit"}}
-DeclParams(m) == {P(x.name, x.in, x.mode = "required") : x \in RangeQ(m.params)}
+\* (mode "rd": the attribute is Required and has a Default - the server insists on it all the same)
+DeclParams(m) == {P(x.name, x.in, x.mode \in {"required", "rd"}) : x \in RangeQ(m.params)}
+IsRD(m, nm) == \E x \in RangeQ(m.params) : x.name = nm /\ x.mode = "rd"
 Statuses(s, m) == RangeQ(m.resps) \cup {e.code : e \in RangeQ(m.errs)} \cup {e.code : e \in RangeQ(s.errs)}
 
 ExpectedOp(d, s, m, r) ==
@@ -154,7 +157,7 @@ MountsOf(d) == ExpectedMounts(d)
 \* request_elements.go.tpl: path, query, header, then cookie elements are read in this order into one `err`
 SrvParam(m, p) ==
   IF p.in \in {"query", "header"} /\ p.required /\ ODev("decode.required_cookie_drops_param_errors")
-     /\ \E c \in RangeQ(m.params) : c.in = "cookie" /\ c.mode = "required"
+     /\ \E c \in RangeQ(m.params) : c.in = "cookie" /\ c.mode \in {"required", "rd"}
   THEN [p EXCEPT !.required = FALSE] ELSE p
 SrvOp(d, s, m, r) == LET e == ExpectedOp(d, s, m, r) IN [e EXCEPT !.params = {SrvParam(m, p) : p \in @}]
 SrvOpsOf(d) == UNION {UNION {{SrvOp(d, s, m, r) : r \in RangeQ(m.routes)} : m \in RangeQ(s.meths)} : s \in RangeQ(d.svcs)}
@@ -165,8 +168,11 @@ V3Switch(v) == v \in {"GET", "PUT", "POST", "DELETE", "OPTIONS", "HEAD", "PATCH"
 GlobalReqs(d) == {RQ({Sch(x.name, IF ODev("v3.api_security_scheme_undefined") THEN "undefined" ELSE x.kind) : x \in r.schemes}, r.scopes)
                   : r \in ReqsOf(d.apiSec)}
 V3Security(d, eff) == IF ReqsOf(eff) = {} /\ ODev("v3.nosecurity_inherits_api_security") THEN GlobalReqs(d) ELSE ReqsOf(eff)
+\* v3/parameters.go paramsFromHeadersAndCookies asks IsRequiredNoDefault
+V3Param(m, p) == IF p.in \in {"header", "cookie"} /\ IsRD(m, p.name) /\ ODev("schema.required_with_default_not_required")
+                 THEN [p EXCEPT !.required = FALSE] ELSE p
 V3Op(d, s, m, r) ==
-  LET e == ExpectedOp(d, s, m, r) IN Proj3([e EXCEPT !.security = V3Security(d, EffSec(d, s, m))])
+  LET e == ExpectedOp(d, s, m, r) IN Proj3([e EXCEPT !.security = V3Security(d, EffSec(d, s, m)), !.params = {V3Param(m, p) : p \in @}])
 V3FileOp(d, s, f) ==
   LET full == FullPath(d, s, f.path)
       e == ExpectedFileOp(d, s, f) IN
@@ -179,7 +185,8 @@ V3Ops(d) ==
 \* openapi/v2/builder.go buildPathFromExpr / buildPathFromFileServer
 V2Switch(v) == v \in {"GET", "PUT", "POST", "DELETE", "OPTIONS", "HEAD", "PATCH"}
 V2Ops(d) ==
-  UNION {UNION {{Proj2(ExpectedOp(d, s, m, r)) : r \in {x \in RangeQ(m.routes) : V2Switch(x.verb)}} : m \in RangeQ(s.meths)} : s \in RangeQ(d.svcs)}
+  UNION {UNION {{Proj2([ExpectedOp(d, s, m, r) EXCEPT !.params = {V3Param(m, p) : p \in @}])            \* (v2 headers ask IsRequiredNoDefault too)
+                 : r \in {x \in RangeQ(m.routes) : V2Switch(x.verb)}} : m \in RangeQ(s.meths)} : s \in RangeQ(d.svcs)}
   \cup UNION {{Proj2(ExpectedFileOp(d, s, f)) : f \in RangeQ(s.files)} : s \in RangeQ(d.svcs)}
 
 \* features of the design the writers / validators are sensitive to
@@ -237,7 +244,7 @@ Verb1s == IF Varies("verbs") THEN Verbs ELSE {"POST"}
 Verb2s(v1) == IF Varies("verbs") THEN {"none"} \cup (Verbs \ {v1}) ELSE IF Varies("paths") THEN {"none", "PUT"} ELSE {"none"}
 PathParamKinds == IF Varies("paths") THEN {"none", "var", "wild"} ELSE {"none"}
 RoutePath(lit, pk) == CASE pk = "var" -> <<Lit(lit), Var("p1")>> [] pk = "wild" -> <<Lit(lit), Wild("p1")>> [] OTHER -> <<Lit(lit)>>
-ParamModes == IF Varies("params") THEN {"absent", "required", "optional", "default"} ELSE {"absent"}
+ParamModes == IF Varies("params") THEN {"absent", "required", "optional", "default", "rd"} ELSE {"absent"}
 XBs == IF Varies("params") THEN {"none", "param", "body"} ELSE {"none"}
 Bodies == IF Varies("params") THEN {"none", "req", "opt", "empty"} ELSE {"none"}
 Status1s == IF Varies("resps") THEN {200, 201, 204} ELSE {200}
